@@ -11,6 +11,7 @@ import (
 	"context"
 	"flag"
 	"fmt"
+	"os"
 	"sort"
 	"strings"
 	"time"
@@ -56,16 +57,14 @@ func memoSequential(r *rng, g *storeGen, n int, hist map[string]int) {
 			case x < 3:
 				ids := g.batch(4)
 				ts := g.triples(ids)
-				var err error
 				op := "add"
-				if r.chance(2, 3) {
-					err = h.AddTriples(ctx, ts)
-				} else {
+				w := h.AddTriples
+				if !r.chance(2, 3) {
 					op = "rem"
-					err = h.RemoveTriples(ctx, ts)
+					w = h.RemoveTriples
 				}
 				hist[op]++
-				g.emit(fmt.Sprintf("S %s %s", op, joinInts(ids)), "same "+okErr(err))
+				g.guardedWrite(fmt.Sprintf("S %s %s", op, joinInts(ids)), func() error { return w(ctx, ts) })
 			case x < 4 && r.chance(1, 3):
 				// windows that end just before, at, and just after the anchor of a stored triple, one look-up after the
 				// other with no write in between: options that differ by a nanosecond are different options
@@ -81,7 +80,7 @@ func memoSequential(r *rng, g *storeGen, n int, hist map[string]int) {
 				tid := tmp[r.intn(len(tmp))]
 				t := g.uni[tid]
 				hist["add"]++
-				g.emit(fmt.Sprintf("S add %d", tid), "same "+okErr(h.AddTriples(ctx, []*triple.Triple{t})))
+				g.guardedWrite(fmt.Sprintf("S add %d", tid), func() error { return h.AddTriples(ctx, []*triple.Triple{t}) })
 				a, _ := t.Predicate().TimeAnchor()
 				m := []string{"triples", "triplesForS", "triplesForO", "objects", "predsForS"}[r.intn(5)]
 				needS, needP, needO := methodNeeds(m)
@@ -119,6 +118,56 @@ func memoSequential(r *rng, g *storeGen, n int, hist map[string]int) {
 						ans = fmt.Sprintf("differs memo=%s plain=%s", x, y)
 					}
 					g.emit(fmt.Sprintf("S look %s lo=%s", m, encLo(lo)), ans)
+				}
+			case x < 5 && r.chance(1, 3):
+				// a wrapped look-up that fails after it delivered one of several results, then the same look-up again: for
+				// every method, over triples that share subject, predicate and object pairwise (several results each)
+				var dense []int
+				for _, sn := range []string{"fa", "fb", "fc"} {
+					for _, on := range []string{"fx", "fy"} {
+						t, _ := triple.New(mustNode("/u", sn), mustImm("fp"), triple.NewNodeObject(mustNode("/u", on)))
+						u, _ := triple.New(mustNode("/u", sn), mustImm("fq"), triple.NewNodeObject(mustNode("/u", on)))
+						dense = append(dense, g.define(t), g.define(u))
+					}
+				}
+				hist["add"]++
+				g.guardedWrite(fmt.Sprintf("S add %s", joinInts(dense)), func() error { return h.AddTriples(ctx, g.triples(dense)) })
+				t0d := g.uni[dense[0]]
+				for _, m := range allMethods {
+					needS, needP, needO := methodNeeds(m)
+					var s *node.Node
+					var p *predicate.Predicate
+					var o *triple.Object
+					if needS {
+						s = t0d.Subject()
+					}
+					if needP {
+						p = t0d.Predicate()
+					}
+					if needO {
+						o = t0d.Object()
+					}
+					lo := &storage.LookupOptions{}
+					ctl.mu.Lock()
+					ctl.failAt, ctl.after = ctl.n, 1
+					ctl.mu.Unlock()
+					a1 := runLookup(h, m, s, p, o, lo)
+					ctl.mu.Lock()
+					fired := ctl.fired != ""
+					ctl.failAt, ctl.fired = -1, ""
+					ctl.mu.Unlock()
+					ans := "same"
+					if fired && !strings.HasPrefix(a1, "err") {
+						ans = "differs: the wrapped lookup failed and the memoizer answered " + a1
+					}
+					g.emit(fmt.Sprintf("S look %s lo=%s", m, encLo(lo)), ans)
+					a2, b2 := runLookup(h, m, s, p, o, lo), runLookup(plain, m, s, p, o, lo)
+					hist["read-after-failed-read"]++
+					ans2 := "same"
+					if a2 != b2 {
+						ans2 = fmt.Sprintf("differs memo=%s plain=%s", a2, b2)
+					}
+					g.emit(fmt.Sprintf("S look %s lo=%s", m, encLo(lo)), ans2)
 				}
 			case x < 4:
 				id := g.okIDs()[r.intn(len(g.okIDs()))]
@@ -330,17 +379,72 @@ func memoSequential(r *rng, g *storeGen, n int, hist map[string]int) {
 					recent[len(recent)-1].nonEmpty = true
 				}
 				g.emit(fmt.Sprintf("S look %s lo=%s", m, encLo(lo)), ans)
+				if fired {
+					// the same look-up again, right after the failed one: what the failed call had delivered before it
+					// failed is not an answer
+					a2, b2 := runLookup(h, m, s, p, o, lo), runLookup(plain, m, s, p, o, lo)
+					hist["read-after-failed-read"]++
+					ans2 := "same"
+					if a2 != b2 {
+						ans2 = fmt.Sprintf("differs memo=%s plain=%s", a2, b2)
+					}
+					g.emit(fmt.Sprintf("S look %s lo=%s", m, encLo(lo)), ans2)
+				}
+				if r.chance(1, 12) {
+					// a listing abandoned half way (its context cancelled after the first triple), then the same listing
+					// with a live context: what the abandoned call had seen is not the answer
+					cctx, cancel := context.WithCancel(ctx)
+					ch := make(chan *triple.Triple)
+					errc := make(chan error, 1)
+					go func() { errc <- h.Triples(cctx, lo, ch) }()
+					select {
+					case <-ch:
+					case <-time.After(2 * time.Second):
+					}
+					cancel()
+					go func() {
+						for range ch {
+						}
+					}()
+					select {
+					case <-errc:
+					case <-time.After(5 * time.Second):
+					}
+					a3, b3 := runLookup(h, "triples", nil, nil, nil, lo), runLookup(plain, "triples", nil, nil, nil, lo)
+					hist["read-after-abandoned-listing"]++
+					ans3 := "same"
+					if a3 != b3 {
+						ans3 = fmt.Sprintf("differs memo=%s plain=%s", a3, b3)
+					}
+					g.emit(fmt.Sprintf("S look triples lo=%s", encLo(lo)), ans3)
+				}
 			}
 		}
 	}
 }
 
+// guardedWrite runs an update of a sequential scenario under a watchdog: an update that does not return (a look-up
+// abandoned earlier still holds the graph's read lock) is the failure, and it ends the run.
+func (g *storeGen) guardedWrite(op string, f func() error) {
+	done := make(chan error, 1)
+	go func() { done <- f() }()
+	select {
+	case err := <-done:
+		g.emit(op, "same "+okErr(err))
+	case <-time.After(20 * time.Second):
+		g.emit(op, "differs: the update does not return (a look-up abandoned earlier still holds the graph's read lock)")
+		g.ops.Flush()
+		g.impl.Flush()
+		os.Exit(0)
+	}
+}
+
 type recentRead struct {
-	m  string
-	s  *node.Node
-	p  *predicate.Predicate
-	o  *triple.Object
-	lo *storage.LookupOptions
+	m        string
+	s        *node.Node
+	p        *predicate.Predicate
+	o        *triple.Object
+	lo       *storage.LookupOptions
 	nonEmpty bool // the look-up returned something (only such answers are memoized)
 }
 
